@@ -327,6 +327,86 @@ theorem strided_index_map (first last step : Nat) (hs : 1 ≤ step) :
     (∀ i j, stridedIndex first step i = stridedIndex first step j → i = j) :=
   ⟨strided_mem first last step hs, fun i j => strided_inj first step i j hs⟩
 
+/-! ### the index form on the fixed-width Index types
+
+`Generated.C05Stride.cnt_T` / `cntCtx_T` are the expressions `Index end = …` of the two `parallel_for_impl` overloads
+(without / with a task_group_context), `stepBad*` / `nonEmpty*` their guards, `idx0_T` / `idxNext_T` the index
+arithmetic of `parallel_for_body_wrapper::operator()`, all REGENERATED from the text of parallel_for.h on every run
+for `T` = short, unsigned short, int, unsigned, long long, unsigned long long (= size_t), with the integral promotions,
+the usual arithmetic conversions, the `1ul` literal and the narrowing `Index(…)` as g++/LP64 performs them. -/
+
+open Generated.C05Stride in
+/-- **strided_count_exact.**  For every Index type, both overloads, and all `first < last`, `step > 0` representable in
+Index (for the signed types: with an extent `last - first` representable in Index — otherwise `last - first` itself
+overflows), the iteration count the code computes is `⌈(last - first)/step⌉` as a mathematical integer: it is positive,
+representable, `(count - 1)·step < last - first ≤ count·step`.  (The textbook formula `(last - first + step - 1)/step`
+does not satisfy this: its intermediate sum leaves the range of Index.) -/
+theorem strided_count_exact :
+    (CountExactS 32768 cnt_i16 ∧ CountExactS 32768 cntCtx_i16) ∧
+    (CountExactU 65536 cnt_u16 ∧ CountExactU 65536 cntCtx_u16) ∧
+    (CountExactS 2147483648 cnt_i32 ∧ CountExactS 2147483648 cntCtx_i32) ∧
+    (CountExactU 4294967296 cnt_u32 ∧ CountExactU 4294967296 cntCtx_u32) ∧
+    (CountExactS 9223372036854775808 cnt_i64 ∧ CountExactS 9223372036854775808 cntCtx_i64) ∧
+    (CountExactU 18446744073709551616 cnt_u64 ∧ CountExactU 18446744073709551616 cntCtx_u64) :=
+  ⟨⟨countS_of_eq cnt_i16_eq, countS_of_eq cntCtx_i16_eq⟩, ⟨countU_of_eq cnt_u16_eq, countU_of_eq cntCtx_u16_eq⟩,
+   ⟨countS_of_eq cnt_i32_eq, countS_of_eq cntCtx_i32_eq⟩, ⟨countU_of_eq cnt_u32_eq, countU_of_eq cntCtx_u32_eq⟩,
+   ⟨countS_of_eq cnt_i64_eq, countS_of_eq cntCtx_i64_eq⟩, ⟨countU_of_eq cnt_u64_eq, countU_of_eq cntCtx_u64_eq⟩⟩
+
+open Generated.C05Stride in
+/-- **strided_guards_exact.**  For every Index type and both overloads: the call throws `nonpositive_step` exactly when
+`step ≤ 0`, runs a loop exactly when `first < last`, and the blocked_range it runs starts at 0. -/
+theorem strided_guards_exact :
+    (GuardsExactS 32768 stepBad_i16 nonEmpty_i16 ∧ GuardsExactS 32768 stepBadCtx_i16 nonEmptyCtx_i16) ∧
+    (GuardsExactU 65536 stepBad_u16 nonEmpty_u16 ∧ GuardsExactU 65536 stepBadCtx_u16 nonEmptyCtx_u16) ∧
+    (GuardsExactS 2147483648 stepBad_i32 nonEmpty_i32 ∧ GuardsExactS 2147483648 stepBadCtx_i32 nonEmptyCtx_i32) ∧
+    (GuardsExactU 4294967296 stepBad_u32 nonEmpty_u32 ∧ GuardsExactU 4294967296 stepBadCtx_u32 nonEmptyCtx_u32) ∧
+    (GuardsExactS 9223372036854775808 stepBad_i64 nonEmpty_i64 ∧ GuardsExactS 9223372036854775808 stepBadCtx_i64 nonEmptyCtx_i64) ∧
+    (GuardsExactU 18446744073709551616 stepBad_u64 nonEmpty_u64 ∧ GuardsExactU 18446744073709551616 stepBadCtx_u64 nonEmptyCtx_u64) ∧
+    (rangeBegin_i16 = 0 ∧ rangeBeginCtx_i16 = 0 ∧ rangeBegin_u16 = 0 ∧ rangeBeginCtx_u16 = 0 ∧ rangeBegin_i32 = 0 ∧ rangeBeginCtx_i32 = 0 ∧
+     rangeBegin_u32 = 0 ∧ rangeBeginCtx_u32 = 0 ∧ rangeBegin_i64 = 0 ∧ rangeBeginCtx_i64 = 0 ∧ rangeBegin_u64 = 0 ∧ rangeBeginCtx_u64 = 0) :=
+  ⟨guards_i16, guards_u16, guards_i32, guards_u32, guards_i64, guards_u64, range_begin_zero⟩
+
+open Generated.C05Stride in
+/-- **strided_index_exact.**  For every Index type and both overloads: a chunk of the blocked_range `[0, count)` that
+starts at iteration `b` passes `first + (b + j)·step` (a mathematical integer: no wrap-around, no truncation) to the
+functor at its `j`-th iteration, for every iteration `b + j < count`.  Together with `strided_count_exact` and
+`strided_index_map` the functor sees exactly `first, first + step, … < last`, each once per visited iteration. -/
+theorem strided_index_exact :
+    (IndexExactS 32768 cnt_i16 idx0_i16 idxNext_i16 ∧ IndexExactS 32768 cntCtx_i16 idx0_i16 idxNext_i16) ∧
+    (IndexExactU 65536 cnt_u16 idx0_u16 idxNext_u16 ∧ IndexExactU 65536 cntCtx_u16 idx0_u16 idxNext_u16) ∧
+    (IndexExactS 2147483648 cnt_i32 idx0_i32 idxNext_i32 ∧ IndexExactS 2147483648 cntCtx_i32 idx0_i32 idxNext_i32) ∧
+    (IndexExactU 4294967296 cnt_u32 idx0_u32 idxNext_u32 ∧ IndexExactU 4294967296 cntCtx_u32 idx0_u32 idxNext_u32) ∧
+    (IndexExactS 9223372036854775808 cnt_i64 idx0_i64 idxNext_i64 ∧ IndexExactS 9223372036854775808 cntCtx_i64 idx0_i64 idxNext_i64) ∧
+    (IndexExactU 18446744073709551616 cnt_u64 idx0_u64 idxNext_u64 ∧ IndexExactU 18446744073709551616 cntCtx_u64 idx0_u64 idxNext_u64) :=
+  ⟨index_i16, index_u16, index_i32, index_u32, index_i64, index_u64⟩
+
+open Generated.C05Stride in
+/-- **strided_count_is_model_end.**  Link to the unbounded model used by `strided_index_map`: on admissible arguments the
+regenerated count of `size_t` / `unsigned` / `unsigned short` is the model's `stridedEnd`, and for the signed types it
+is `stridedEnd 0 (last - first) step` (shift the iteration space to 0). -/
+theorem strided_count_is_model_end :
+    (∀ first last step, StrideArgsU 18446744073709551616 first last step → cnt_u64 first last step = stridedEnd first last step ∧ cntCtx_u64 first last step = stridedEnd first last step) ∧
+    (∀ first last step, StrideArgsU 4294967296 first last step → cnt_u32 first last step = stridedEnd first last step ∧ cntCtx_u32 first last step = stridedEnd first last step) ∧
+    (∀ first last step, StrideArgsU 65536 first last step → cnt_u16 first last step = stridedEnd first last step ∧ cntCtx_u16 first last step = stridedEnd first last step) ∧
+    (∀ first last step, StrideArgsS 2147483648 first last step →
+      cnt_i32 first last step = (stridedEnd 0 (last - first).toNat step.toNat : Nat) ∧ cntCtx_i32 first last step = (stridedEnd 0 (last - first).toNat step.toNat : Nat)) := by
+  refine ⟨fun f l s a => ?_, fun f l s a => ?_, fun f l s a => ?_, fun f l s a => ?_⟩
+  · simp only [stridedEnd, a.lt, if_true]; exact ⟨cnt_u64_eq f l s a, cntCtx_u64_eq f l s a⟩
+  · simp only [stridedEnd, a.lt, if_true]; exact ⟨cnt_u32_eq f l s a, cntCtx_u32_eq f l s a⟩
+  · simp only [stridedEnd, a.lt, if_true]; exact ⟨cnt_u16_eq f l s a, cntCtx_u16_eq f l s a⟩
+  · have hlt := a.lt
+    have hsp := a.sp
+    have hpos : 0 < (l - f).toNat := by omega
+    have e : ((stridedEnd 0 (l - f).toNat s.toNat : Nat) : Int) = (l - f - 1) / s + 1 := by
+      simp only [stridedEnd, hpos, if_true, Nat.sub_zero]
+      rw [Int.natCast_add, Int.natCast_ediv]
+      have e1 : (((l - f).toNat - 1 : Nat) : Int) = l - f - 1 := by omega
+      have e2 : ((s.toNat : Nat) : Int) = s := by omega
+      rw [e1, e2]; rfl
+    rw [e]
+    exact ⟨cnt_i32_eq f l s a, cntCtx_i32_eq f l s a⟩
+
+
 /-! ## Non-vacuity -/
 
 /-- a 1-d simple_partitioner loop that finishes: `[0,10)` with grain 2 gives 6 chunks, nothing dropped -/
@@ -350,6 +430,21 @@ example : WF1 { b := 3, e := 2 ^ 63 + 5, g := 7 } ∧ R1.divisible { b := 3, e :
   constructor
   · exact ⟨by decide, by decide, by decide⟩
   · decide
+
+open Generated.C05Stride in
+/-- non-vacuity of the index-form theorems: admissible arguments exist at the very top of every type's range, the
+regenerated expressions give the mathematical count there, and the textbook formula's intermediate value would not fit:
+`parallel_for(0u, 4000000000u, 1000000000u, f)` has 4 iterations, `parallel_for<short>(0, 32000, 1000, f)` has 32,
+a `size_t` loop up to `2^64-1` with step `2^62` has 4. -/
+example :
+    StrideArgsU 4294967296 0 4000000000 1000000000 ∧ cnt_u32 0 4000000000 1000000000 = 4 ∧ cntCtx_u32 0 4000000000 1000000000 = 4 ∧
+    StrideArgsS 32768 0 32000 1000 ∧ cnt_i16 0 32000 1000 = 32 ∧ cntCtx_i16 0 32000 1000 = 32 ∧
+    StrideArgsU 18446744073709551616 0 18446744073709551615 4611686018427387904 ∧ cnt_u64 0 18446744073709551615 4611686018427387904 = 4 ∧
+    StrideArgsS 2147483648 (-5) 2147483642 2147483647 ∧ cnt_i32 (-5) 2147483642 2147483647 = 1 ∧ cnt_i32 (-5) 2147483643 2147483647 = 2 ∧
+    StrideArgsU 65536 1 65535 1 ∧ cnt_u16 1 65535 1 = 65534 ∧ idx0_u16 1 1 65533 = 65534 := by
+  refine ⟨⟨by decide, by decide, by decide, by decide⟩, by decide, by decide, ⟨by decide, by decide, by decide, by decide, by decide, by decide⟩, by decide, by decide,
+    ⟨by decide, by decide, by decide, by decide⟩, by decide, ⟨by decide, by decide, by decide, by decide, by decide, by decide⟩, by decide, by decide,
+    ⟨by decide, by decide, by decide, by decide⟩, by decide, by decide⟩
 
 example : stridedEnd 5 20 7 = 3 ∧ stridedIndex 5 7 2 = 19 := by decide
 
